@@ -24,6 +24,12 @@ pub fn tsc_duration_since(later: u64, earlier: u64, frequency: u64) -> u128 {
         .picos
 }
 
+/// Uncached `Timer::measure_precision` of a TSC timer, in picoseconds.
+pub fn measure_precision(frequency: u64) -> u128 {
+    let frequency = NonZeroU64::new(frequency).expect("non-zero frequency");
+    crate::time::Timer::Tsc { frequency }.verif_measure_precision().picos
+}
+
 /// `FineDuration::from(Duration)` in picoseconds.
 pub fn fine_from_duration(d: Duration) -> u128 {
     FineDuration::from(d).picos
